@@ -131,11 +131,12 @@ def handle (args : List String) : String :=
         | .list kvs => encTree (Spec.subst (pairsOf kvs) [] t)
         | _ => "bad-arg"))
   | ["refprint", mode, sty, w] =>
-      -- sty: four characters 0/1 = afterMinus insideParens aroundComma aroundColon
+      -- sty: six characters 0/1 = afterMinus insideParens beforeComma afterComma beforeColon afterColon
       withExpr w (fun e =>
         let b (i : Nat) : Bool := (sty.toList.getD i '0') == '1'
-        let st : Spec.Style := ⟨b 0, b 1, b 2, b 3⟩
-        let md := if mode == "full" then Spec.Mode.full else Spec.Mode.minimal
+        let st : Spec.Style := { afterMinus := b 0, insideParens := b 1, beforeComma := b 2, afterComma := b 3,
+                                 beforeColon := b 4, afterColon := b 5 }
+        let md := if mode == "full" then Spec.Mode.full else if mode == "printer" then Spec.Mode.printer else Spec.Mode.minimal
         hexOfString (String.ofList (Spec.render (Spec.printToks st md e))))
   | ["rtrender", w] => withExpr w (fun e => hexOfString (String.ofList (rtRender e)))
   | ["pyval", k, h] =>
